@@ -867,6 +867,19 @@ def install(reg):
             return x if x.is_int else Sym(z3.ToReal(-z3.ToInt(-x.t)))
         return interp.native(np.ceil, x)
 
+    def m_abs(interp, x, **kw):
+        """np.abs: elementwise magnitude, a NEW array of the same dtype (real input)"""
+        if isinstance(x, SymArr) and not x.pylist:
+            g = _guarded(x, view=False)
+            return nd(x.shape, lambda *idx: abs(S(g(*idx))), x.kind, like=x)
+        if isinstance(x, Sym):
+            return abs(x)
+        if contains_sym(x):
+            raise OutOfSubset("np.abs of a symbolic container")
+        return interp.native(np.abs, x, **kw)
+
+    M[np.abs] = m_abs
+    M[np.absolute] = m_abs
     M[np.floor] = m_floor
     M[np.ceil] = m_ceil
 
